@@ -2,12 +2,25 @@ SPEC = {
     'id': 'C20',
     'harness': 'hC20',
     'coq_dir': 'C20',
-    'theorems': ['C20_work_antitone'],
+    'theorems': ['C20_decode_recode', 'C20_recode_idempotent', 'C20_canonical_form',
+                 'C20_precision', 'C20_truncated_shift', 'C20_precision_bounds', 'C20_precision_unguarded_refuted',
+                 'C20_negative_exact_partial', 'C20_precision_negative_refuted',
+                 'C20_work_antitone', 'C20_work_antitone_encoded'],
     'allowed_axioms': [],
     'shard': 1500,
     'rule': 'every exponent 0..255 x edge mantissas (both signs) x random mantissas; integers of every byte length 0..260 '
-            'with top bytes 01/7f/80/ff, both signs; work pairs (neighbours, same exponent, random). '
-            'non-trivial = decoded/encoded value is non-zero; distinct = distinct Gallina case terms',
-    'trusted_base': ['math/big (Go) is an oracle for the implementation side'],
-    'assumptions': ['uint32/uint truncations are modelled as mod 2^32; exponents above 255 wrap exactly as uint32(exponent<<24) does'],
+            'with top bytes 01/7f/80/ff, both signs; exactly representable integers (mantissa<<8k, both signs) and negative '
+            'integers whose arithmetic shift rounds up (7fffff../ffffff.. + low bits); integer target pairs through the encoder '
+            '(class boundaries 256^l-1|256^l, 2^(8l-1)-1|2^(8l-1), neighbours, random); work pairs (neighbours, same exponent, random). '
+            'non-trivial = decoded/encoded value is non-zero (pairs: smaller target positive); distinct = distinct Gallina case terms',
+    'trusted_base': ['math/big (Go) is an oracle for the implementation side',
+                     'the Gallina model coq/theories/C20/Model.v is tied to difficulty.go by the differential check only '
+                     '(uint32/uint truncation = mod 2^32, big.Int.Rsh on negatives = floor shift, Bits()[0] = low word of the magnitude)',
+                     'Coq kernel + vm_compute (used for the two refutation witnesses and the Examples)'],
+    'assumptions': ['uint32/uint truncations are modelled as mod 2^32; exponents above 255 wrap exactly as uint32(exponent<<24) does',
+                    'C20_precision is guarded by fits_format n (byte length + top-bit adjustment <= 255): larger integers are outside the '
+                    '8-bit-exponent format (C20_precision_unguarded_refuted, witness 2^2039)',
+                    'precision is claimed for non-negative integers only, as in the property text; for negative integers only exactly '
+                    'representable ones round-trip (C20_negative_exact_partial); BigToCompact(-0xffffff01) decodes to 0 '
+                    '(C20_precision_negative_refuted, reproduced on the Go code by the encode-neg-roundup stream)'],
 }
